@@ -92,6 +92,12 @@ def malformed_stream(rnd, tier, per_seed=10):
     T = tier == 'thorough'
     nseed = 1600 if T else 160
     CONFIGS = ALL_STACKS + ['CoAP-semantic']
+    for _ in range(20 if T else 3):
+        for stack, pkt in P.minimal_packets(rnd):
+            cases.append((stack, b2s(pkt), 'minimal-well-formed'))
+            cases.append((stack, b2s(pkt[:-1]), 'minimal-minus-one-byte'))
+            cases.append((stack, b2s(pkt)[:-1], 'minimal-minus-one-bit'))
+            cases.append((stack, b2s(pkt + rnd.randbytes(1)), 'minimal-plus-one-byte'))
     for i in range(nseed):
         stack = CONFIGS[i % len(CONFIGS)]
         pkt, st = rnd.choice(STACK_GENS['CoAP' if stack == 'CoAP-semantic' else stack])(rnd)
